@@ -70,6 +70,18 @@ CLAIMED = {
               "sampling, epsilon band 2% of extent); harness/geom.py; harness/skia_trace.py."),
         technique="Lean 4 proof relative to an engine specification (induction on the operand list) + recorded-call expression correspondence + sampled set law",
         ref="DESIGN.md §4 C13"),
+    "C19": dict(
+        text=("Lean 4 theorems over an ordered field: a point is in the open interiors of two rectangles iff Rect.intersection "
+              "returns a box containing it; None is returned exactly when the open interiors are disjoint; union contains both "
+              "boxes and each of its sides is a side of an operand; the document bounding box fold contains every shape box "
+              "(induction over the shape list); the per-shape decision of clip_to_viewbox (drop iff disjoint interiors, clip "
+              "rectangle = the intersection, untouched iff the box already equals it). Model tied exactly (Fraction vs Rat). The "
+              "cut geometry is Skia's (relative to EngineSpec, C13): the painted stack before/after clip_to_viewbox and the "
+              "tightness of bounding boxes are judged on the implementation with the independent renderer / flattened extrema."),
+        note=("Trusted: Lean kernel; propext/Classical.choice/Quot.sound; harness/render.py and geom.py; Skia bounds and op "
+              "(hypotheses, sampled). Group flattening after the clip is covered by the rendering judge only."),
+        technique="Lean 4 proof (order reasoning, induction on the shape list) + exact Fraction/Rat correspondence + independent renderer search",
+        ref="DESIGN.md §4 C19"),
 }
 
 def main():
